@@ -75,7 +75,21 @@ func c01(c *Ctx) {
 	c.Guarded("apply-order/loop-exit-on-eof-only", ap, p.PlainCalls("ltx.(*Decoder).Close"), gs(GP("(io.EOF == ltx.(*Decoder).DecodePage(@@))", true)), 1, "the page loop is left for the verification only when DecodePage returned io.EOF", "a partial apply would be verified and positioned")
 
 	// ---- apply-tail ----
-	c.After("apply-tail/shm", ap, setpos, call("updateSHM"), nil, 1, "after the position was set every success exit rewrites the SHM header", "WAL-mode readers on the replica would keep the old database size")
+	{
+		// every success exit after the position was set rewrites the SHM header - except for a tombstone (commit 0), which has no SHM file
+		hasPages := G(`\(0 < ltx\.\(\*Decoder\)\.Header\(.*\)\.Commit\)`, false)
+		fn := c.F(ap)
+		d := "after the position was set every success exit rewrites the SHM header, unless the transaction is a tombstone (commit 0)"
+		why := "WAL-mode readers on the replica would keep the old database size"
+		if c.need("apply-tail/shm", "K3 AfterOnSuccess (guarded)", d, fn, ap) {
+			s2 := &Search{P: p, Fn: fn, From: Instrs(fn, setpos), Avoid: call("updateSHM"), Block: p.EdgesAsserting(hasPages), Tgt: p.SuccessReturn}
+			if f := s2.Run(); f != nil {
+				c.fail("apply-tail/shm", "K3 AfterOnSuccess (guarded)", d, why, "exit "+c.where(f.Instr)+" reachable after the position was set without updateSHM and without the commit-0 branch; path "+p.TraceString(f.Trace), 1)
+			} else {
+				c.ok("apply-tail/shm", "K3 AfterOnSuccess (guarded)", d, len(Instrs(fn, setpos)))
+			}
+		}
+	}
 	isSnap := GP("ltx.(*Header).IsSnapshot(&new(ltx.Header))", false)
 	noInv := GP("(nil == p0.store.Invalidator)", true)
 	c.BeforeG("apply-tail/snapshot-invalidates-db", ap, p.SuccessReturn, p.PlainCalls("litefs.Invalidator.InvalidateDB"), gs(isSnap, noInv), 1, "a snapshot apply invalidates the whole database in the kernel cache (when an invalidator is installed)", "pages beyond those rewritten stay stale")
